@@ -21,7 +21,7 @@ import (
 // releases it, so exactly one logical thread runs at a time and the interleaving is the one TLC chose.
 
 type boxOp struct {
-	K     string `json:"k"` // "recv" | "send"
+	K     string `json:"k"` // "recv" | "send" | "tick"
 	ID    int    `json:"id"`
 	Src   int    `json:"src"`
 	Topic string `json:"topic"`
@@ -29,6 +29,7 @@ type boxOp struct {
 }
 
 type boxScenario struct {
+	GC      bool               `json:"gc"` // the collector takes part: GCExpire / GCSweep = 2, ticks through the virtual ticker
 	Name    string             `json:"name"`
 	Threads map[string][]boxOp `json:"threads"`
 	Topics  []string           `json:"topics"`
@@ -40,7 +41,7 @@ type boxJob struct {
 	Workers   int           `json:"workers"`
 }
 
-var boxPark = map[string]bool{"decide": true, "forward": true, "hlock": true, "send": true, "fwdsend": true, "next": true, "gcmark": true, "gcsweep": true}
+var boxPark = map[string]bool{"tick": true, "decide": true, "forward": true, "hlock": true, "send": true, "fwdsend": true, "next": true, "gcmark": true, "gcsweep": true}
 
 type boxThread struct {
 	name   string
@@ -100,13 +101,14 @@ func boxReplay(ti int, sc boxScenario, path []string) []obj {
 	for _, tp := range sc.Topics {
 		hlocks[string(topicBytes(tp))] = &sync.Mutex{}
 	}
+	tick := make(chan time.Time)
 	var box *msg.Box
 	box = &msg.Box{
 		Logger:                    scripted.Logger{},
 		MaxInFlightTopicsBySender: 10000,
 		GCSweep:                   20 * time.Second,
 		GCExpire:                  2 * time.Minute,
-		NewTicker:                 func(time.Duration) *time.Ticker { return &time.Ticker{C: make(chan time.Time)} },
+		NewTicker:                 func(time.Duration) *time.Ticker { return &time.Ticker{C: tick} },
 		ForwardSend: func(msgType uint8, topic []byte, m []byte, to ...tss.UniversalID) {
 			mu.Lock()
 			fsent = append(fsent, topicName[string(topic)])
@@ -131,6 +133,9 @@ func boxReplay(ti int, sc boxScenario, path []string) []obj {
 			mu.Unlock()
 			box.Send(uint8(tss.MsgTypeMPC), m.Topic, []byte("ack"))
 		}),
+	}
+	if sc.GC {
+		box.GCSweep, box.GCExpire = time.Second, 2*time.Second
 	}
 	defer func() {
 		defer func() { recover() }()
@@ -159,6 +164,16 @@ func boxReplay(ti int, sc boxScenario, path []string) []obj {
 				}
 			}()
 			for _, op := range ops {
+				if op.K == "tick" {
+					// one step of the epoch clock (a yield point of its own, then the clock goroutine of the Box does the increment)
+					msg.VerifYield("tick")
+					before := box.VerifSnapshot().Epoch
+					tick <- time.Time{}
+					for i := 0; i < 20000 && box.VerifSnapshot().Epoch == before; i++ {
+						time.Sleep(50 * time.Microsecond)
+					}
+					continue
+				}
 				if op.K == "recv" {
 					box.HandleMessage(&tss.IncMessage{Data: []byte(boxMsgData(op)), Source: uint16(op.Src), MsgType: uint8(tss.MsgTypeMPC), Topic: topicBytes(op.Topic)})
 				} else {
@@ -176,8 +191,10 @@ func boxReplay(ti int, sc boxScenario, path []string) []obj {
 			return append(lines, obj{"t": ti, "e": "end", "hung": true, "panic": "", "where": "start of " + name})
 		}
 	}
+	var lastEpoch uint64
 	snapshot := func() (pend, hand []obj, started []string, infl [][]interface{}) {
 		s := box.VerifSnapshot()
+		lastEpoch = s.Epoch
 		for _, tp := range sc.Topics {
 			l, ok := s.Pending[string(topicBytes(tp))]
 			ids := []int{}
@@ -244,7 +261,7 @@ func boxReplay(ti int, sc boxScenario, path []string) []obj {
 		h := append([]int{}, handed...)
 		f := append([]string{}, fsent...)
 		mu.Unlock()
-		lines = append(lines, obj{"t": ti, "e": "step", "th": name, "pc": pc, "next": next, "pend": pend, "hand": hand, "started": started, "infl": infl, "handed": h, "fsent": f})
+		lines = append(lines, obj{"t": ti, "e": "step", "th": name, "pc": pc, "next": next, "epoch": lastEpoch, "pend": pend, "hand": hand, "started": started, "infl": infl, "handed": h, "fsent": f})
 		return true
 	}
 	for _, name := range path {
